@@ -19,15 +19,7 @@ def build():
     u.verify(D, "get_duration_part", "duration", props=["C19"], fns={"get_duration_part": FnSpec(ret="r", sig="""
     ensures
         // one part is <digits><unit>; its value is number x unit seconds exactly, or None when that does not fit in 64 bits
-        r matches Ok(t) ==> ({
-            let n = crate::nom::digits_prefix_len(input@);
-            &&& 1 <= n < input@.len() && is_unit_char(input@[n])
-            &&& t.0@ == input@.skip(n + 1)
-            &&& crate::nom::parse_u64_spec(input@.take(n)) matches Some(nb)
-            &&& (match t.1 {
-                    Some(d) => dur(d) == (nb as nat) * (unit_seconds(input@[n]) as nat) * 1_000_000_000,
-                    None => (nb as nat) * (unit_seconds(input@[n]) as nat) > u64::MAX })
-        }), //@C19.part_value_exact
+        r matches Ok(t) ==> part_ok(input@, t.0@, t.1), //@C19.part_value_exact
 """, rewrites=[("T-NOM", r"map_res\(digit1, \|s: &str\| s\.parse::<u64>\(\)\)\(input\)",
                 "crate::nom::map_res_digit1(|s: &str| -> (pr: Result<u64, crate::nom::ParseIntError>) ensures (match pr { Ok(v) => crate::nom::parse_u64_spec(s@) == Some(v), Err(_) => crate::nom::parse_u64_spec(s@) is None }) { crate::nom::parse_u64(s) }, input)"),
                ("T-CLOSURE", r"nb\.checked_mul\(mult\)\.map\(Duration::from_secs\)",
@@ -40,23 +32,134 @@ def build():
         assert(input_0@.skip(n)[0] == input_0@[n]);
         assert((nb as nat) * (mult as nat) == (nb * mult) as nat) by (nonlinear_arith) requires nb * mult <= u64::MAX || true;
     }""")], body_start="let ghost input_0 = input;")})
-    u.verify(D, "get_duration", "duration", props=["C19"], fns={"get_duration": FnSpec(ret="r", rewrites=[
-        ("T-NOM", r"fold_many1\(\s*get_duration_part,", "crate::nom::fold_many1(get_duration_part,"),
-        ("T-CLOSURE", r"\|\| Some\(Duration::new\(0, 0\)\)", "|| -> (z__: Option<Duration>) ensures z__ matches Some(d) && dur(d) == 0 { Some(Duration::new(0, 0)) }"),
-        # the fold step, whatever its body: annotated with the step relation it must satisfy; `)(input)` becomes a third argument
-        ("T-CLOSURE", r"(?s)\|acc: Option<Duration>, item: Option<Duration>\|\s*(?P<body>.*?),?\s*\)\(input\)",
-         lambda m: "|acc: Option<Duration>, item: Option<Duration>| -> (s__: Option<Duration>) ensures fold_step_ok(acc, item, s__) /*//@C19.period_is_sum_of_parts*/ { "
-                   + m.group("body") + " }, input)"),
+    u.verify(D, "get_duration", "duration", props=["C19"], fns={"get_duration": FnSpec(ret="r", sig="""
+    ensures
+        // what is parsed is a chain of parts, each starting where the previous one ended, folded by checked addition from zero
+        r matches Ok(t) ==> exists|ins: Seq<Seq<char>>, outs: Seq<Option<Duration>>, accs: Seq<Option<Duration>>|
+            dur_chain(input@, t.0@, t.1, ins, outs, accs), //@C19.period_is_a_sequence_of_parts
+""", rewrites=[
+        # fold_many1(get_duration_part, INIT, STEP)(input): uncurried (T-NOM); the two closures keep their real bodies, are named, and
+        # get the ensures clause the fold relies on (INIT yields zero; STEP is checked addition: fold_step_ok) - then the chain the
+        # combinator guarantees is restated over the texts
+        ("T-NOM", r"(?s)fold_many1\(\s*get_duration_part,\s*\|\|\s*(?P<init>(?:[^,()]|\((?:[^()]|\([^()]*\))*\))*),\s*\|(?P<a>\w+): Option<Duration>, (?P<i>\w+): Option<Duration>\|\s*(?P<body>.*?),?\s*\)\(input\)",
+         lambda m: "{ let init__ = || -> (z__: Option<Duration>) ensures z__ matches Some(d) && dur(d) == 0 { " + m.group("init") + " };\n"
+                   + "let step__ = |" + m.group("a") + ": Option<Duration>, " + m.group("i") + ": Option<Duration>| -> (s__: Option<Duration>) ensures fold_step_ok(" + m.group("a") + ", " + m.group("i") + ", s__) /*//@C19.period_is_sum_of_parts*/ { "
+                   + m.group("body") + " };\n" + CHAIN_PROOF + " }"),
     ])})
-    u.verify(D, "parse_duration", "duration", props=["C19"], fns={"parse_duration": FnSpec(ret="r")})
+    u.verify(D, "parse_duration", "duration", props=["C19"], fns={"parse_duration": FnSpec(ret="r", sig="""
+    ensures
+        // a time period is accepted only if the whole text is one or more parts <digits><unit>, and it then equals the sum of its parts
+        r matches Ok(d) ==> is_period(input@) && dur(d) == period_ns(input@), //@C19.periods_are_accepted_per_the_documented_grammar_and_equal_the_sum_of_their_parts
+""", names={"d": r"Ok\(\([\w_]+, Some\((\w+)\)\)\) =>"},
+        at=[("before", "Ok($d)", 1, """{
+                proof {
+                    // what get_duration returned: when nothing is left of the text, the chain of parts it parsed is the whole text
+                    if let Ok(t0) = gd0__ {
+                        if t0.0@.len() == 0 && t0.1 is Some {
+                            let (ins, outs, accs) = choose|ins: Seq<Seq<char>>, outs: Seq<Option<Duration>>, accs: Seq<Option<Duration>>| dur_chain(input@, t0.0@, t0.1, ins, outs, accs);
+                            lemma_chain_is_period(input@, t0.0@, t0.1, ins, outs, accs, 0);
+                        }
+                    }
+                }
+                """), ("after", "Ok($d)", 1, " }")],
+        rewrites=[("T-LET", r"match get_duration\(input\) \{", "let gd__ = get_duration(input); let ghost gd0__ = gd__; match gd__ {"),
+                  ("T-STR", r"match (?P<r>\w+)\.len\(\)", r"match crate::nom::byte_len(\g<r>)", None),
+                  ("T-STR", r"(?P<r>\b\w+)\.is_empty\(\)", r"(crate::nom::byte_len(\g<r>) == 0)", None)])})
     return u
 
+
+CHAIN_PROOF = """let r__ = crate::nom::fold_many1(get_duration_part, init__, step__, input);
+    proof {
+        if let Ok(t) = r__ {
+            let (ins, outs, accs) = choose|ins: Seq<&str>, outs: Seq<Option<Duration>>, accs: Seq<Option<Duration>>|
+                crate::nom::fold_chain(get_duration_part, init__, step__, input, t.0, t.1, ins, outs, accs);
+            let vins = ins.map_values(|s: &str| s@);
+            assert forall|i: int| 0 <= i < outs.len() implies part_ok(#[trigger] vins[i], vins[i + 1], outs[i]) by {
+                assert(get_duration_part.ensures((ins[i],), Ok((ins[i + 1], outs[i]))));
+            }
+            assert forall|i: int| 0 <= i < outs.len() implies fold_step_ok(#[trigger] accs[i], outs[i], accs[i + 1]) by {
+                assert(step__.ensures((accs[i], outs[i]), accs[i + 1]));
+            }
+            reveal(dur_chain);
+            assert(dur_chain(input@, t.0@, t.1, vins, outs, accs)); //@C19.period_is_a_sequence_of_parts
+        }
+    }
+    r__"""
 
 SPEC = """
 // the documented grammar: units s m h d w
 pub open spec fn is_unit_char(c: char) -> bool { c == 's' || c == 'm' || c == 'h' || c == 'd' || c == 'w' }
 pub open spec fn unit_seconds(c: char) -> u64 {
     if c == 's' { 1 } else if c == 'm' { 60 } else if c == 'h' { 3_600 } else if c == 'd' { 86_400 } else if c == 'w' { 604_800 } else { 0 }
+}
+// one part <digits><unit> at the head of a, leaving b, with value o (None: number x unit does not fit in 64 bits)
+pub open spec fn part_ok(a: Seq<char>, b: Seq<char>, o: Option<std::time::Duration>) -> bool {
+    let n = crate::nom::digits_prefix_len(a);
+    &&& 1 <= n < a.len() && is_unit_char(a[n])
+    &&& b == a.skip(n + 1)
+    &&& crate::nom::parse_u64_spec(a.take(n)) matches Some(nb)
+    &&& (match o {
+            Some(d) => dur(d) == (nb as nat) * (unit_seconds(a[n]) as nat) * 1_000_000_000,
+            None => (nb as nat) * (unit_seconds(a[n]) as nat) > u64::MAX })
+}
+// a chain of parts from `input` to `rest`, folded from zero by checked addition into `res`
+#[verifier::opaque]
+pub open spec fn dur_chain(input: Seq<char>, rest: Seq<char>, res: Option<std::time::Duration>,
+                           ins: Seq<Seq<char>>, outs: Seq<Option<std::time::Duration>>, accs: Seq<Option<std::time::Duration>>) -> bool {
+    &&& outs.len() >= 1 && ins.len() == outs.len() + 1 && accs.len() == outs.len() + 1
+    &&& ins[0] == input && ins.last() == rest && accs.last() == res
+    &&& (accs[0] matches Some(z) && dur(z) == 0)
+    &&& forall|i: int| 0 <= i < outs.len() ==> part_ok(#[trigger] ins[i], ins[i + 1], outs[i])
+    &&& forall|i: int| 0 <= i < outs.len() ==> fold_step_ok(#[trigger] accs[i], outs[i], accs[i + 1])
+}
+// ---- the documented grammar: a period is one or more parts <digits><unit>; its length is the sum of number x unit
+pub open spec fn head_ok(s: Seq<char>) -> bool {
+    let n = crate::nom::digits_prefix_len(s);
+    1 <= n < s.len() && is_unit_char(s[n]) && crate::nom::parse_u64_spec(s.take(n)) is Some
+}
+pub open spec fn head_ns(s: Seq<char>) -> nat {
+    let n = crate::nom::digits_prefix_len(s);
+    (crate::nom::parse_u64_spec(s.take(n)).unwrap() as nat) * (unit_seconds(s[n]) as nat) * 1_000_000_000
+}
+pub open spec fn tail_of(s: Seq<char>) -> Seq<char> { s.skip(crate::nom::digits_prefix_len(s) + 1) }
+#[verifier::opaque]
+pub open spec fn is_period(s: Seq<char>) -> bool
+    decreases s.len()
+{
+    head_ok(s) && (tail_of(s).len() == 0 || (tail_of(s).len() < s.len() && is_period(tail_of(s))))
+}
+#[verifier::opaque]
+pub open spec fn period_ns(s: Seq<char>) -> nat
+    decreases s.len()
+{
+    if !head_ok(s) { 0 } else { head_ns(s) + (if tail_of(s).len() == 0 || tail_of(s).len() >= s.len() { 0nat } else { period_ns(tail_of(s)) }) }
+}
+// a chain that consumes the whole text is a period; when the fold did not overflow, its result is the period's length
+pub proof fn lemma_chain_is_period(input: Seq<char>, rest: Seq<char>, res: Option<std::time::Duration>,
+                                   ins: Seq<Seq<char>>, outs: Seq<Option<std::time::Duration>>, accs: Seq<Option<std::time::Duration>>, j: int)
+    requires dur_chain(input, rest, res, ins, outs, accs), rest.len() == 0, 0 <= j,
+    ensures outs.len() >= 1,
+        j < outs.len() ==> is_period(ins[j]),
+        j < outs.len() ==> (res matches Some(d) ==> (accs[j] matches Some(a) && dur(d) == dur(a) + period_ns(ins[j]))),
+        j == 0 ==> ins[0] == input && (accs[0] matches Some(z) && dur(z) == 0),
+    decreases outs.len() - j
+{
+    let k = outs.len() as int;
+    reveal(dur_chain);
+    if j >= k { return; }
+    reveal_with_fuel(is_period, 2);
+    reveal_with_fuel(period_ns, 2);
+    assert(part_ok(ins[j], ins[j + 1], outs[j]));
+    assert(fold_step_ok(accs[j], outs[j], accs[j + 1]));
+    assert(tail_of(ins[j]) == ins[j + 1]);
+    assert(ins[j + 1].len() < ins[j].len());
+    if j + 1 < k {
+        lemma_chain_is_period(input, rest, res, ins, outs, accs, j + 1);
+        assert(part_ok(ins[j + 1], ins[j + 2], outs[j + 1]));
+        assert(ins[j + 1].len() > 0);
+    } else {
+        assert(ins[j + 1] == ins.last());
+    }
 }
 // the fold step is checked addition: the period is the sum of its parts, or None when the sum does not fit
 pub open spec fn fold_step_ok(acc: Option<std::time::Duration>, item: Option<std::time::Duration>, r: Option<std::time::Duration>) -> bool {
